@@ -245,6 +245,9 @@ func init() {
 			profiles: []*profile{panicProfile()}, batchSize: 40, batches: rs.vol(20, 400),
 			nontrivial: func(p *Program, r *Record) bool { return r.Panic != "" && r.Yields >= 1 },
 		}
+		for i, sh := range panicShapes {
+			spec.fixed = append(spec.fixed, mkShapeProgram("K"+itoa(100+i), sh))
+		}
 		rs.runDiff(spec)
 	}}
 }
